@@ -87,16 +87,16 @@ def build(chk):
     pats = patterns()
     ctr = Ctr()
     progs = []
-    fns = "fn first(a: u16, b: u16) -> u16 { a }\nfn second(b: u16, a: u16) -> u16 { a }\n"
+    fns = "fn first(a: u16, b: u16) -> u16 { a }\nfn second(b: u16, a: u16) -> u16 { a }\nfn pair(x: u16, y: u16) -> u32 { <(u16, u16)>::into((x, y)) }\n"
     structures = []
     for d in (1, 2, 3):
         sub = pats if d == 1 else rng.sample(pats, 6 if quick else 14)
         ctr = Ctr()
         bs = list(binders(d, ctr, sub))
-        if d == 3 and len(bs) > (500 if quick else 6000):
-            bs = rng.sample(bs, 500 if quick else 6000)
-        if d == 2 and len(bs) > (400 if quick else 3000):
-            bs = rng.sample(bs, 400 if quick else 3000)
+        if d == 3 and len(bs) > (250 if quick else 6000):
+            bs = rng.sample(bs, 250 if quick else 6000)
+        if d == 2 and len(bs) > (250 if quick else 3000):
+            bs = rng.sample(bs, 250 if quick else 3000)
         structures += [(d, b) for b in bs]
     for idx, (d, b) in enumerate(structures):
         for name in NAMES:
@@ -105,6 +105,20 @@ def build(chk):
             p = Prog(text, [("EXPECT", ("U", 4))], "bind/%d/%d/%s" % (d, idx, name))
             p.fixed = []
             chk.count("bind.depth%d" % d)
+            progs.append(p)
+        # both names fetched at once (one projection of the environment instead of two lookups): as a tuple and as call arguments
+        if idx % 3 != 2:
+            obs = ("assert!(jet::eq_32(<(u16, u16)>::into((a, b)), witness::EXPECT));" if idx % 3 == 0 else "assert!(jet::eq_32(pair(b, a), witness::EXPECT));")
+            text = fns + "fn main() { let a: u16 = 1; let b: u16 = 2; %s }" % b(obs)
+            p = Prog(text, [("EXPECT", ("U", 5))], "bind/%d/%d/pair" % (d, idx))
+            p.fixed = []
+            chk.count("bind.pair")
+            progs.append(p)
+    for i, (tag, text) in enumerate(corelib.scope_type_family()):
+        if tag == "W":
+            p = Prog(text, [], "scope-type/%d" % i)
+            p.fixed = []
+            chk.count("bind.scope-type")
             progs.append(p)
     return progs
 
@@ -124,6 +138,14 @@ def run(chk, replay=None):
         chk.violation({"class": "binding-program-rejected", "what": "%s || %s" % (a[:160], g.text[:300])},
                       {"program": g.text, "implementation": a, "broken": "a well-scoped program is rejected"})
     corelib.run_matrix(chk, acc, fixed_witnesses=True, dbgs=(0,))
+    # uses of a name at the type of a binding that is not visible there, or of a name that is out of scope: must be rejected
+    ill = [t for tag, t in corelib.scope_type_family() if tag == "I"]
+    for t, x in zip(ill, impl("core", ["(ast %s)" % quote(t) for t in ill])):
+        chk.case("(ast %s)" % quote(t), sample={"program": t[:200], "accepted": x.startswith("(ok")})
+        chk.count("scope-type.ill." + ("accepted" if x.startswith("(ok") else "rejected"))
+        if x.startswith("(ok") or x.startswith("PANIC"):
+            chk.violation({"class": "out-of-scope-accepted", "what": t[:300]}, {"cmd": "core", "line": "(ast %s)" % quote(t), "program": t, "implementation": x[:1000],
+                          "broken": "a reference resolves to a binding that is not the nearest visible one (a shadowed outer binding, a binding of a block that has ended, or the caller's variable)"})
     chk.extra["programs"] = len(acc)
     chk.exhaustive = False
     chk.extra["rule"] = ("binding structures of depth 1 (exhaustive over all pattern shapes with <= 3 leaves over names {a,b,_}: flat/nested tuples, arrays), depth 2 and 3 (products of "
